@@ -529,37 +529,59 @@ theorem fallback (cfg : Cfg) (mmap : Bool) (plugin : Bytes → BitVec 32 → Boo
   unfold openReader
   simp only [hi]
 
+theorem writerWalk_nil (cfg : Cfg) (mmap : Bool) (plugin : Bytes → BitVec 32 → Bool) (segExists : BitVec 64 → Bool)
+    (i : Nat) (acc : Option (Nat × List (Seg R))) :
+    writerWalk ro cfg mmap plugin segExists [] i acc = .ok acc := by unfold writerWalk; rfl
+
+theorem writerWalk_cons_ok (cfg : Cfg) (mmap : Bool) (plugin : Bytes → BitVec 32 → Bool) (segExists : BitVec 64 → Bool)
+    (f : Bytes) (newer : List Bytes) (i : Nat) (acc : Option (Nat × List (Seg R))) (ss : List (Seg R))
+    (h : loadFull ro cfg mmap plugin segExists f = .ok ss) :
+    writerWalk ro cfg mmap plugin segExists (f :: newer) i acc =
+      writerWalk ro cfg mmap plugin segExists newer (i + 1) (some (i, ss)) := by
+  conv => lhs; unfold writerWalk
+  simp only [h]
+
+theorem writerWalk_cons_error (cfg : Cfg) (mmap : Bool) (plugin : Bytes → BitVec 32 → Bool) (segExists : BitVec 64 → Bool)
+    (f : Bytes) (newer : List Bytes) (i : Nat) (acc : Option (Nat × List (Seg R))) (e : Err)
+    (h : loadFull ro cfg mmap plugin segExists f = .error e) :
+    writerWalk ro cfg mmap plugin segExists (f :: newer) i acc =
+      writerWalk ro cfg mmap plugin segExists newer (i + 1) acc := by
+  conv => lhs; unfold writerWalk
+  simp only [h]
+
 /-- **Fallback, writer side.** `OpenWriter` (its `loadSnapshots`) walks oldest → newest: when the newest file is
 rejected with an error and the one before it loads, the writer comes up on that older snapshot — the error of the
-newest file is not the result. Any number of still older files (loadable or not) may precede them. -/
+newest file is not the result. Any number of still older files (each answered with a result or an error) may
+precede them. -/
 theorem fallback_writer (cfg : Cfg) (mmap : Bool) (plugin : Bytes → BitVec 32 → Bool) (segExists : BitVec 64 → Bool)
     (oldest : List Bytes) (intact damaged : Bytes) (e : Err) (ss : List (Seg R))
-    (hsafe : ∀ f ∈ oldest, (loadFull ro cfg mmap plugin segExists f).safe = true)
+    (hsafe : ∀ f ∈ oldest, (∃ x, loadFull ro cfg mmap plugin segExists f = .ok x) ∨
+                            (∃ x, loadFull ro cfg mmap plugin segExists f = .error x))
     (hi : loadFull ro cfg mmap plugin segExists intact = .ok ss)
     (hd : loadFull ro cfg mmap plugin segExists damaged = .error e) :
     openWriterSnap ro cfg mmap plugin segExists (oldest ++ [intact, damaged]) = .ok (some (oldest.length, ss)) := by
   have hwalk : ∀ (l : List Bytes) (i : Nat) (acc : Option (Nat × List (Seg R))),
-      (∀ f ∈ l, (loadFull ro cfg mmap plugin segExists f).safe = true) →
+      (∀ f ∈ l, (∃ x, loadFull ro cfg mmap plugin segExists f = .ok x) ∨
+                (∃ x, loadFull ro cfg mmap plugin segExists f = .error x)) →
       writerWalk ro cfg mmap plugin segExists (l ++ [intact, damaged]) i acc = .ok (some (i + l.length, ss)) := by
     intro l
     induction l with
     | nil =>
       intro i acc _
-      simp only [List.nil_append, writerWalk, hi, hd, List.length_nil, Nat.add_zero]
+      rw [List.nil_append, writerWalk_cons_ok ro cfg mmap plugin segExists _ _ _ _ ss hi,
+        writerWalk_cons_error ro cfg mmap plugin segExists _ _ _ _ e hd, writerWalk_nil]
+      rfl
     | cons f rest ih =>
       intro i acc hs
-      have hf := hs f (by simp)
-      have hr : ∀ g ∈ rest, (loadFull ro cfg mmap plugin segExists g).safe = true := fun g hg => hs g (by simp [hg])
-      simp only [List.cons_append, writerWalk, List.length_cons]
-      cases hl : loadFull ro cfg mmap plugin segExists f with
-      | ok x => simp only; rw [ih (i + 1) _ hr]; congr 3; omega
-      | error x => simp only; rw [ih (i + 1) _ hr]; congr 3; omega
-      | panic x => rw [hl] at hf; cases hf
-      | alloc x n => rw [hl] at hf; cases hf
-      | fault x => rw [hl] at hf; cases hf
+      have hr : ∀ g ∈ rest, (∃ x, loadFull ro cfg mmap plugin segExists g = .ok x) ∨
+          (∃ x, loadFull ro cfg mmap plugin segExists g = .error x) := fun g hg => hs g (List.mem_cons_of_mem _ hg)
+      have hlen : i + (f :: rest).length = i + 1 + rest.length := by simp only [List.length_cons]; omega
+      rw [List.cons_append, hlen]
+      rcases hs f (List.mem_cons_self ..) with ⟨x, hx⟩ | ⟨x, hx⟩
+      · rw [writerWalk_cons_ok ro cfg mmap plugin segExists _ _ _ _ x hx]; exact ih (i + 1) _ hr
+      · rw [writerWalk_cons_error ro cfg mmap plugin segExists _ _ _ _ x hx]; exact ih (i + 1) _ hr
   unfold openWriterSnap
-  rw [hwalk oldest 0 none hsafe]
-  simp
+  rw [hwalk oldest 0 none hsafe, Nat.zero_add]
 
 /-- with the repairs, loading a file never does anything but succeed or return an error, so the walk
 always reaches the first loadable file -/
